@@ -443,3 +443,35 @@ func (s *Scheduler) Drain() {
 		t.resume <- struct{}{}
 	}
 }
+
+
+// ---- select gate -------------------------------------------------------------------------------------------
+//
+// Go chooses at random among the ready cases of a select. For the selects the instrumenter gates (session.go:run)
+// the simulator can make that choice: with an order set, the cases are polled one by one in that order before the
+// select itself runs, so when several sources are ready the first in the order wins. With no order set (default)
+// nothing is polled and the select runs as written.
+
+var selectOrder atomic.Pointer[[]int]
+
+// SetSelectOrder sets (or, with nil, clears) the polling order: a list of case indices of the gated select.
+func SetSelectOrder(order []int) {
+	if order == nil {
+		selectOrder.Store(nil)
+		return
+	}
+	o := append([]int(nil), order...)
+	selectOrder.Store(&o)
+}
+
+// SelectPick answers which case to poll k-th, or -1 for none.
+func SelectPick(site string, k, n int) int {
+	o := selectOrder.Load()
+	if o == nil || k >= len(*o) {
+		return -1
+	}
+	if i := (*o)[k]; i >= 0 && i < n {
+		return i
+	}
+	return -1
+}
